@@ -18,14 +18,12 @@ try:
     THEOREMS = _T
 except Exception:
     pass
-REQ = wc.REQUIRES + ["FlacWriters.Finalize_proofs", "FlacWriters.C09_proofs"]
 
 
 def run(chk):
     chk.assumptions = list(wc.ASSUMPTIONS) + [
         "MD5: the model takes the digest function as a parameter with the single hypothesis that a digest has 16 bytes; that STREAMINFO carries the MD5 of the little-endian sign-extended PCM bytes is checked on the implementation with an independent MD5",
     ]
-    wc.REQUIRES[:] = list(dict.fromkeys(REQ))
     proof_ok = wc.proof_stage(chk, THEOREMS)
     runs = []
     for profile in ("release",) + (("debug",) if chk.tier == "thorough" else ()):
